@@ -120,7 +120,8 @@ raw_b('h_clear', ['C08', 'C01'], ['RawTable::clear', 'RawTableInner::clear_no_dr
 raw_b('h_iter_fold', ['C09'], ['RawIter::fold', 'RawIterRange::fold_impl', 'RawIter::clone'],
       'next() for any prefix then fold(): every full bucket exactly once; a clone reports the same remaining length')
 raw_b('h_drain', ['C10', 'C09', 'C02'], ['RawTable::drain', 'RawDrain::next', 'RawDrain::drop', 'RawTable::drain_iter_from'],
-      'drain consumed to any cut then dropped or leaked: valid empty table, same allocation, no tombstones, full capacity (leaked: unallocated)')
+      'drain consumed to any cut then dropped or leaked: valid empty table, same allocation, no tombstones, full capacity (leaked: unallocated)',
+      thorough_sse2=())   # 16 buckets under SSE2: no answer within 4500 s (measured); the portable build answers in ~1000 s
 raw_b('h_clone', ['C11'], ['RawTable::clone', 'RawTable::clone_from_impl'],
       'clone: every bucket reproduced in a new allocation, source unchanged')
 raw_b('h_get_many2', ['C15'], ['RawTable::get_many_mut_pointers'],
